@@ -1,6 +1,6 @@
 prop("C14", "c14.cpp", [V("plain"), V("asan+reduced", flags=["-DVF_REDUCED"])], PLAIN_ASAN,
      explain="complete sweep of every 3-/2-/1-byte group through the real encoders/decoders against an arithmetic reference",
-     bounds={"quick": "all 2^24 groups, all 2^16+2^8 tails (alone and after a full group), lengths 0..64 x 256 contents, all 2^16 hex pairs; static-initialisation battery (a battery over every operation family run from the constructor of a global object initialised before anything the library headers define, compared with main())",
+     bounds={"quick": "all 2^24 groups, all 2^16+2^8 tails (alone and after a full group), lengths 0..64 x 256 contents, all 2^16 hex pairs; static-initialisation battery (a battery over every operation family run from the constructor of a global object initialised before anything the library headers define, compared with main()); 16 start alignments of the source array and of the caller's output buffer x 92 lengths; caller's buffer directly before / after the text's heap block (12 sizes x 2 codecs); hex_encode / base64_encode of 2^31+64 bytes with the result block sharing a 16 MiB window of real memory; reduced ASan+UBSan variant; process-locale battery",
              "thorough": "same sweeps plain and under ASan+UBSan, lengths 0..200"})
 
 TEXT["C14"] = dict(
